@@ -107,6 +107,7 @@ func (e *exec) bad(format string, a ...any) {
 		for _, f := range e.peer.Ledger().FramesOf(h2peer.In, 0, true) {
 			fmt.Printf("C12DEBUG   in: %v\n", f)
 		}
+		fmt.Printf("C12DEBUG   peer read err: %v; ledger violations: %v\n", e.peer.ReadErr(), e.peer.Ledger().Violations())
 	}
 }
 
